@@ -416,7 +416,8 @@ def memInit (fx : Fixes) (fail : Nat → Bool) (c : Cfg) : InitRes :=
 /-- `dLUWorkFree` (dmemory.c:414-428) -/
 def workFree (s : St) : St :=
   if s.user = false then s
-  else { s with used := s.used - (s.size - s.top2), top2 := s.size }
+  else { s with used := s.used - (s.size - s.top2), top2 := s.size,
+                iwork := s.size, iworkLen := 0, dwork := s.size, dworkLen := 0 }
 
 abbrev expand_asIs := expand asIs
 abbrev expand_fixed := expand fixed
@@ -453,7 +454,7 @@ def St.blocks (w : Words) (s : St) : List (Int × Int) :=
   [ (s.hdrEnd - 5 * hb, hb), (s.hdrEnd - 4 * hb, hb), (s.hdrEnd - 3 * hb, hb), (s.hdrEnd - 2 * hb, hb),
     (s.hdrEnd - hb, hb),
     (s.offL, s.capL * w.dw), (s.offU, s.capU * w.dw), (s.offS, s.capS * w.liw), (s.offB, s.capB * w.liw),
-    (s.iwork, s.iworkLen), (s.dwork, s.dworkLen) ]
+    (s.dwork, s.dworkLen), (s.iwork, s.iworkLen) ]
 
 /-! ### QuerySpace (B level) -/
 
